@@ -710,7 +710,11 @@ func (e *cEnv) phase(ph string) bool {
 			e.relay.CutAll()
 			if !gate.WaitArrived(recoveryGrace) {
 				gate.Release()
-				e.c.Violation("no-recovery-after-cut", "mux=%v, %d proxies: no re-login reached frps within %v after the connection was cut", e.mux, e.n, recoveryGrace)
+				key := "no-recovery-after-cut"
+				if rep > 0 {
+					key = "no-recovery-after-login-reply-lost" // the previous round's lost reply is what stands in the way
+				}
+				e.c.Violation(key, "mux=%v, %d proxies, round %d: no re-login got as far as the login reply at frps within %v after the connection was cut", e.mux, e.n, rep+1, recoveryGrace)
 				return false
 			}
 			// the connection of the parked login dies: its reply cannot be delivered any more
